@@ -18,35 +18,50 @@ class Builder:
         self.world = world
         self.cell = world["cell"]
         self.g = world["gdim"]
-        self.mesh = make_mesh(self.cell, self.g)
+        # several meshes of the same kind (multi-domain forms): world["nmesh"], fields may name theirs by "mesh": k
+        self.meshes = [self.mk_mesh(k) for k in range(int(world.get("nmesh", 1)))]
+        self.mesh = self.meshes[0]
         self.fields = {}
         self.spaces = {}
         for name, f in world["fields"].items():
+            mesh = self.meshes[int(f.get("mesh", 0))]
             if f["kind"] == "const":
-                sh = tuple(f["shape"])
-                if sh == ():
-                    self.fields[name] = ufl.Constant(self.mesh)
-                else:
-                    self.fields[name] = ufl.Constant(self.mesh, shape=sh)
+                self.fields[name] = self.mk_const(mesh, tuple(f["shape"]), name)
                 continue
             el = make_element(f["elem"], self.cell)
-            V = ufl.FunctionSpace(self.mesh, el)
+            V = ufl.FunctionSpace(mesh, el)
             self.spaces[name] = V
             if f["kind"] == "coef":
-                self.fields[name] = ufl.Coefficient(V)
+                self.fields[name] = self.mk_coef(V, name)
             elif f["kind"] == "arg":
                 self.fields[name] = ufl.Argument(V, f["number"], f.get("part"))
             else:
                 raise ValueError(f["kind"])
-        self.idx = {n: Index() for n in INDEX_NAMES}
+        self.idx = {n: self.mk_index(n) for n in INDEX_NAMES}
         self.var_recipes = list(var_recipes)
         self.vars = {}
         self.x = ufl.SpatialCoordinate(self.mesh)
         self.n = ufl.FacetNormal(self.mesh)
 
+    # -- factories (overridden by checks that control the counters of the created objects)
+    def mk_mesh(self, k):
+        return make_mesh(self.cell, self.g)
+
+    def mk_const(self, mesh, shape, name):
+        return ufl.Constant(mesh) if shape == () else ufl.Constant(mesh, shape=shape)
+
+    def mk_coef(self, V, name):
+        return ufl.Coefficient(V)
+
+    def mk_index(self, name):
+        return Index()
+
+    def mk_variable(self, e, k):
+        return ufl.variable(e)
+
     def var(self, k):
         if k not in self.vars:
-            self.vars[k] = ufl.variable(self.build(self.var_recipes[k]))
+            self.vars[k] = self.mk_variable(self.build(self.var_recipes[k]), k)
         return self.vars[k]
 
     def ix(self, items):
@@ -102,6 +117,10 @@ class Builder:
             return ufl.PermutationSymbol(r[1])
         if op == "x":
             return self.x
+        if op == "xm":  # spatial coordinate of the k-th mesh
+            return ufl.SpatialCoordinate(self.meshes[r[1]])
+        if op == "geom":  # geometric quantity of the k-th mesh
+            return getattr(ufl.classes, r[1])(self.meshes[r[2]])
         if op == "geo":
             return getattr(ufl.classes, r[1])(self.mesh)
         if op == "var":
